@@ -103,6 +103,15 @@ def correspond(run):
     # property clauses measured on the implementation
     for c in cases:
         rt = c["roundtrip"]
+        if c.get("missing_odd", 1) != 1:
+            run.violation("missing-file-odd-path", "reload_json on a directory whose name is not valid UTF-8 and that holds no parameters.json does not "
+                          "return Err (class %s: 2 = panic, 0 = Ok)" % c["missing_odd"],
+                          {"kind": "impl-input", "input": {"directory_name_bytes": "donn\\xe9es \\xff"}, "observed": c["missing_odd"]})
+            break
+        if c.get("roundtrip_odd", 0) >= 2:
+            run.violation("odd-path-panic", "%s panics in a directory whose name is not valid UTF-8" % ("dump_json" if c["roundtrip_odd"] == 3 else "reload_json after dump_json"),
+                          {"kind": "impl-input", "input": {"directory_name_bytes": "donn\\xe9es \\xff", "m": c["m"], "q": c["q"]}, "observed": c["roundtrip_odd"]})
+            break
         if c["missing"] != 1:
             run.violation("missing-file", "reload_json on a directory without parameters.json does not return Err (class %s)" % c["missing"],
                           {"kind": "impl-input", "input": {}, "observed": c["missing"]})
